@@ -140,6 +140,44 @@ def check(rep, F, tier, replay=None):
             if c_.to and NARROW.search(c_.to):
                 rep.violation("WIDE-interm", "%s|%s" % (key_, c_.to.rsplit("::", 1)[-1]), "%s narrows an intermediate of the exact fee arithmetic with %s (%s): the product / sum can exceed 64 bits although the final rounded fee fits, so min_script_fee / calculate_ex_units_ceil_cost fail with 'overflow' for prices and unit totals whose fee is representable" % (key_, c_.to, facts.loc_str(c_.loc, fn_)), {})
     rep.floor("Rational methods inspected", 12, n_r)
+    # RAT-alg: the fraction arithmetic is the fraction arithmetic
+    import ratalg as _ra
+    import fieldflow as _ffr
+    rep.rule("RAT-alg", "every return path of Rational::add / sub / mul_ratio / div_ratio / mul_bignum / mul_usize yields numerator and denominator polynomials (over self = an/ad, the argument = bn/bd or k) that are the specified fraction - cross-multiplied equality of normal forms, under the substitutions the path's own branch conditions justify (`x.is_zero()` -> x = 0, `p == q` -> one symbol). Exact for all values at once: a shortcut that returns the right numerator over the wrong denominator (equal denominators: (an + bn) / (ad * bd)) is off by a factor ad although every test with coprime or unit denominators passes. A path guarded by `self is zero` is skipped only when every caller's receiver is Rational::one()")
+    n_ra = 0
+    for m_ in sorted(_ra.SPEC):
+        ids_ = F.by_key("Rational::" + m_)
+        if len(ids_) != 1 or ids_[0] not in F.hir:
+            rep.lost("Rational::%s not found" % m_)
+            continue
+        try:
+            res_ = _ra.check_method(F.hir[ids_[0]], m_)
+        except _ra.NotAlgebraic as e_:
+            rep.lost("Rational::%s is outside the polynomial fragment (%s)" % (m_, e_))
+            continue
+        for line_, subs_, N_, D_, ok_ in res_:
+            n_ra += 1
+            rep.inst("RAT-alg")
+            if ok_:
+                continue
+            if any(sy == "an" and not rp for sy, rp in subs_):
+                # premise: no caller can pass a zero receiver
+                recv_ok, n_call = True, 0
+                for cf, cfn in F.fns.items():
+                    if "/tests/" in cfn["file"] or "tests::" in cf:
+                        continue
+                    for c_ in F.calls(cf):
+                        if c_.to == ids_[0]:
+                            n_call += 1
+                            o_ = _ffr.Origins(F, cf).of_operand(cfn["bbs"][c_.bb]["t"][3][0])
+                            srcs = {x.split("@")[0] for x in o_ if x.startswith("call:") or x.startswith("arg:") or x.startswith("field:")}
+                            if not srcs or not all(x.endswith("Rational::one") for x in srcs):
+                                recv_ok = False
+                if recv_ok and n_call:
+                    rep.allow("RAT-alg")
+                    continue
+            rep.violation("RAT-alg", "Rational::%s|%s" % (m_, ",".join("%s=%s" % (sy, _ra.pstr(rp)) for sy, rp in subs_) or "general"), "Rational::%s returns (%s) / (%s) on the path %s; that is not the %s of an/ad and %s: the script fee (calculate_ex_units_ceil_cost / min_script_fee) and the tiered reference-script fee are computed from a wrong fraction whenever that path is taken" % (m_, _ra.pstr(N_), _ra.pstr(D_), ("where " + ", ".join("%s = %s" % (sy, _ra.pstr(rp)) for sy, rp in subs_)) if subs_ else "taken by default", {"add": "sum", "sub": "difference", "mul_ratio": "product", "div_ratio": "quotient", "mul_bignum": "product", "mul_usize": "product"}[m_], "bn/bd" if m_ in ("add", "sub", "mul_ratio", "div_ratio") else "k"), {"line": line_})
+    rep.floor("return paths of Rational arithmetic compared with their specification", 8, n_ra)
     # AS-u64: the fallible narrowing the fee functions end with is exact: None iff negative or >= 2^64
     rep.rule("AS-u64", "BigInt::as_u64 (the conversion behind to_bignum_ceil / to_bignum_floor) answers Some for every non-negative value below 2^64: either it matches the u64-digit count (0 or 1 digit -> Some) or it compares bits() with a constant that admits exactly 64 bits")
     fid = find_fn(rep, F, "BigInt::as_u64")
